@@ -317,6 +317,29 @@ def c03_class(sc):
     return None
 
 
+def c03_conn_class(sc, dst, key):
+    """Known-finding class of ONE input key (dest eid, dest attr, src sim, src eid) of simulator `dst`: the findings are
+    properties of a connection, so a violation is only attributed to a finding if the offending keys belong to
+    connections that have the finding's feature."""
+    sims = sc["sims"]
+    conns = [c for c in sc["connects"] if c["dst"] == dst and (c["deid"], c["dattr"], c["src"], c["seid"]) == tuple(key)]
+    for c in conns:
+        if not is_persistent(sims[c["src"]]["type"], c["sattr"]) and c["init"]:
+            return "C03-event-with-init"
+    if sc.get("future_outputs") and any(sims[c["src"]]["type"] != "time-based" for c in conns):
+        return "C03-nonmonotone-output-times"
+    if sc.get("sparse_persistent") and any(is_persistent(sims[c["src"]]["type"], c["sattr"]) for c in conns):
+        return "C03-sparse-persistent"      # not a finding: the simulator breaks its contract; nothing is claimed for this key
+    if sc["cache"]:
+        for c in conns:
+            if is_persistent(sims[c["src"]]["type"], c["sattr"]) and any(
+                    c2["init"] and c2["src"] == c["src"] and is_persistent(sims[c2["src"]]["type"], c2["sattr"]) for c2 in sc["connects"]):
+                return "C03-cache-initial-data"
+    if any(s["group"] for s in sims) and any(c["weak"] for c in sc["connects"]):
+        return "C03-subtier-blind"
+    return None
+
+
 def mon_c03(sc, controller):
     """Expected inputs of every step, recomputed from the history of get_data replies."""
     vio = []
@@ -374,7 +397,8 @@ def mon_c03(sc, controller):
                 wrong = {k: (got_c[k], want[k]) for k in want if k in got_c and got_c[k] != want[k]}
                 extra = {k: v for k, v in got_c.items() if k not in want}
                 vio.append({"law": "step inputs = most recent due persistent values + each due event exactly once", "sim": i, "t": t,
-                            "missing": str(missing), "wrong(got,want)": str(wrong), "unexpected": str(extra), "event": idx})
+                            "missing": str(missing), "wrong(got,want)": str(wrong), "unexpected": str(extra), "event": idx,
+                            "keys": sorted(set(missing) | set(wrong) | set(extra))})
             last_begin[i] = t
     return vio
 
